@@ -88,6 +88,7 @@ RULES = {
     "FWDTHREAD": forwarding.rule_fwdthread,
     "FWDHELPERS": forwarding.rule_fwdhelpers,
     "PATHIDX": forwarding.rule_pathidx,
+    "FWDSIB": forwarding.rule_fwdsib,
     "FWDPRESENT": provenance.rule_fwdpresent,
     "FWDWALK": provenance.rule_fwdwalk,
     "ANNOTONLY": provenance.rule_annotonly,
